@@ -78,3 +78,9 @@ package factory
 //@ writers factory.Logger.Enable serves C20 =
 //@ writers factory.Logger.Level serves C20 =
 //@ writers factory.Logger.ReportCaller serves C20 =
+
+// The "cidr" rule the configuration is validated with is govalidator's CIDR test and nothing else (C20).
+//@ func ReadConfig$1(str string) (r bool)
+//@   ensures [cidr] r == govalidator.IsCIDR(str)
+//@   modifies nothing
+//@   serves C20
